@@ -168,17 +168,19 @@ BuiltEv ==
          \* --- C05: content the loader rejected is never admitted (after at most one cache-bypassing retry for
          \*     non-registry URLs; none for registry files); the retry presents the same checksum
          integ == { i \in contentLoads : loads[i].resp = "integrity" }
-         retryOf(i) == { j \in contentLoads : j > i /\ loads[j].s = loads[i].s /\ loads[j].setting = "reload" }
+         nextOf(i) == { j \in contentLoads : j > i /\ loads[j].s = loads[i].s /\ \A k \in contentLoads : (k > i /\ k < j) => loads[k].s # loads[i].s }
          retryOk == \A i \in { x \in integ : loads[x].setting = "use" } :
-                       IF IsRegFile(loads[i].s) THEN retryOf(i) = {}
-                       ELSE Cardinality(retryOf(i)) = 1 /\ \A j \in retryOf(i) : loads[j].sum = loads[i].sum
+                       IF IsRegFile(loads[i].s) THEN \A j \in nextOf(i) : loads[j].setting # "reload"
+                       ELSE /\ nextOf(i) # {}
+                            /\ \A j \in nextOf(i) : /\ loads[j].setting = "reload" /\ loads[j].sum = loads[i].sum
+                                                      /\ \A k \in nextOf(j) : loads[k].setting # "reload"
          notAdmitted == \A i \in integ : laterOk(i) \/ isErr(loads[i].s)
          \* --- C05: lockfile writes: every newly seen remote (non-registry, non-declaration) module and every manifest
          newRemote == { s \in DOMAIN g.slots : g.slots[s].k = "mod" /\ g.slots[s].cls = "js" /\ g.slots[s].mt # "dts" /\ ~IsRegFile(s)
                           /\ s \in DOMAIN g.sch /\ g.sch[s] \in {"http", "https"} /\ s \in DOMAIN f.sums }
          \* the bytes used for s: what the last successful load of s served
          lastServed(s) == LET idx == { i \in contentLoads : loads[i].s = s /\ loads[i].resp = "module" }
-                          IN loads[CHOOSE i \in idx : \A j \in idx : j <= i].served
+                          IN IF idx = {} THEN "no-successful-load" ELSE loads[CHOOSE i \in idx : \A j \in idx : j <= i].served
          remoteWritten == \A s \in newRemote : f.lockEnabled => (s \in DOMAIN e.lockRemote /\
                              (IF s \in DOMAIN f.lockRemote THEN TRUE ELSE e.lockRemote[s] = lastServed(s)))
          \* nothing else is written: declaration files, registry files and failed loads get no remote checksum
